@@ -199,6 +199,10 @@ def chan_mc(rep, tier, kinds=("q", "rv", "os")):
         add_mc(rep, mc_cached("chan", "MpscBoundedP", "MC_MpscP_k2.cfg", [], workers=4))
         # Layer P of the lock-based mpmc waiter / disconnect protocol (as repaired by af629bb)
         add_mc(rep, mc_cached("chan", "MpmcWaitP", "MC_MpmcWaitP.cfg", [], workers=4))
+    if "os" in kinds:
+        # Layer P of the oneshot state word protocol (as repaired: F13, F25, F26, F27)
+        for c in ("MC_OneshotP.cfg", "MC_OneshotP_again.cfg", "MC_OneshotP_leave.cfg", "MC_OneshotP_leave1.cfg"):
+            add_mc(rep, mc_cached("chan", "OneshotP", c, [], workers=2))
     if "rv" in kinds:
         # Layer P of the rendezvous hand-off / cancellation protocol (as fixed by 6a381f1)
         add_mc(rep, mc_cached("chan", "RendezvousP", "RendezvousP_fixed.cfg", [], workers=2))
@@ -269,10 +273,10 @@ def C02(rep):
 
 def C03(rep):
     chan_mc(rep, rep.tier)
-    chan_seq(rep, BOUNDED, n(rep.tier, 24, 400), 70, [1, 2, 3, 4], ["mix", "batch"], seed_off=202, label="chan-seq-bounded")
+    chan_seq(rep, BOUNDED, n(rep.tier, 16, 400), 70, [1, 2, 3, 4], ["mix", "batch"], seed_off=202, label="chan-seq-bounded")
     chan_sched(rep, BOUNDED, n(rep.tier, 36, 2000), [1, 2, 3], shapes=("prefill", "drain"), seed_off=22)
     # more parked receivers / pending futures than capacity, non-power-of-two capacities first
-    chan_seq(rep, [f for f in BOUNDED if f.endswith("_async")], n(rep.tier, 12, 300), 70, [3, 1, 5, 2], ["parked"],
+    chan_seq(rep, [f for f in BOUNDED if f.endswith("_async")], n(rep.tier, 8, 300), 60, [3, 1, 5, 2], ["parked"],
              seed_off=203, label="chan-seq-parked")
     chan_sched(rep, ["mpmc_b", "mpmc_b_async", "mpmc_rv", "mpmc_rv_async"], n(rep.tier, 45, 1500), [3, 1, 2],
                shapes=("manyrx",), strategies=("pct", "random", "pct5"), seed_off=23, label="chan-sched-manyrx")
@@ -287,7 +291,7 @@ def C03(rep):
 
 def C04(rep):
     chan_mc(rep, rep.tier)
-    chan_seq(rep, ALL_PLUS, n(rep.tier, 36, 600), 60, [1, 2, 5], ["close", "teardown", "life"], seed_off=303, label="chan-seq-close")
+    chan_seq(rep, ALL_PLUS, n(rep.tier, 30, 600), 50, [1, 2, 5], ["close", "teardown", "life"], seed_off=303, label="chan-seq-close")
     chan_sched(rep, ALL_PLUS, n(rep.tier, 40, 1500), [1, 2], shapes=("leave", "drain"), seed_off=33)
     add_mc(rep, mc_cached("topic", "MC_TopicA", "MC_TopicA_quick.cfg", ["TopicA.tla"], timeout=1800))
     topic_part(rep, n(rep.tier, 60, 1000), seed_off=3434)
